@@ -1,14 +1,14 @@
 ; xxh — the reference XXH32 with seed 0 (xxHash specification, "XXH32 algorithm description"),
 ; written over Int with values in [0, 2^32). Used by the contracts of internal/xxh32 (C13).
 ;
-; The 32-bit operations are the functions the engine uses for the Go operators in theory u32
-; (defined by axioms in the engine's prelude), so that a code term and a specification term over
-; equal operands are equal by congruence:
-;   a + b    (both in range)   u32.add a b   = a+b with one conditional subtraction of 2^32
-;   a * c                      u32.mul a c   = (a*c) mod 2^32
-;   rol_k(a)                   u32.rolK a    = (a*2^k mod 2^32) + (a div 2^(32-k)), the parts share no bit
-;   a ^ (a >> k)               bit.xor a (a div 2^k)   -- bit.xor is uninterpreted: the proofs hold
-;                              for every function, in particular for exclusive or
+; The 32-bit operations are the functions the engine uses for the Go operators in theory u32, so
+; that a code term and a reference term over equal operands are equal by congruence:
+;   a + b              u32.add a b     (a+b) mod 2^32
+;   a * c              u32.mul a c     (a*c) mod 2^32
+;   a<<k | a>>(32-k)   u32.rolK a      rotation by k
+;   a ^ (a >> k)       bit.xor a (a div 2^k)
+; The solvers are told only that their results lie in [0, 2^32): every proof about this library is
+; valid for any functions with that range, in particular for the intended ones.
 ; M is a byte memory (every element in 0..255), p a start address, n a length.
 ; little-endian word at offset o from base p (element addresses are idx(p, o), as in the engine)
 (define-fun xxh.le32 ((d (Array Int Int)) (p Int) (o Int)) Int
